@@ -221,3 +221,59 @@ pub proof fn lemma_erased_rows_unchanged(f: Buffer, o: Buffer, col: int, row: in
         assert(f.row(r).cells@ =~= o.row(r).cells@);
     }
 }
+
+/// [C10] number of rows among `ls[0..k]` that end a logical line (rows without the wrap mark):
+/// the index of the logical line that row `k` belongs to
+pub open spec fn ends_before(ls: Seq<Line>, k: int) -> int
+    decreases k,
+{
+    if k <= 0 { 0 } else { ends_before(ls, k - 1) + (if ls[k - 1].wrapped { 0int } else { 1int }) }
+}
+
+/// [C10] number of rows of its own logical line that precede row `k`
+pub open spec fn run_before(ls: Seq<Line>, k: int) -> int
+    decreases k,
+{
+    if k <= 0 || !ls[k - 1].wrapped { 0 } else { run_before(ls, k - 1) + 1 }
+}
+
+pub proof fn lemma_ends_mono(ls: Seq<Line>, j: int, k: int)
+    requires
+        0 <= j <= k,
+    ensures
+        ends_before(ls, j) <= ends_before(ls, k) <= ends_before(ls, j) + (k - j),
+        0 <= run_before(ls, k) <= k,
+    decreases k,
+{
+    if k > j {
+        lemma_ends_mono(ls, j, k - 1);
+    } else if k > 0 {
+        lemma_ends_mono(ls, j - 1, k - 1);
+    }
+}
+
+/// both counts look at the wrap marks below `k` only
+pub proof fn lemma_ends_prefix(a: Seq<Line>, b: Seq<Line>, k: int)
+    requires
+        0 <= k <= a.len(),
+        k <= b.len(),
+        forall|i: int| 0 <= i < k ==> (#[trigger] a[i]).wrapped == b[i].wrapped,
+    ensures
+        ends_before(a, k) == ends_before(b, k),
+        run_before(a, k) == run_before(b, k),
+    decreases k,
+{
+    if k > 0 {
+        lemma_ends_prefix(a, b, k - 1);
+    }
+}
+
+/// a cursor logical position `(offset, line)` is represented by row `a`, column `col` at width `cols`
+/// [C10]: same logical line, and the same character of it unless the line is shorter than that
+pub open spec fn at_logical(ls: Seq<Line>, cols: int, a: int, col: int, offset: int, line: int) -> bool {
+    &&& 0 <= a < ls.len()
+    &&& ends_before(ls, a) == line
+    &&& run_before(ls, a) * cols <= offset
+    &&& col == min_int(offset - run_before(ls, a) * cols, cols - 1)
+    &&& (offset - run_before(ls, a) * cols < cols || !ls[a].wrapped)
+}
